@@ -59,6 +59,29 @@ pub fn run(shape: &str, n: usize, chords: usize, selfsame_every: usize, seed: u6
     let mut edges = 0usize;
     let noise = |i: usize| selfsame_every > 0 && i % selfsame_every == 0;
     let at = |objs: &Vec<Option<Rc<Big>>>, i: usize| -> Rc<Big> { Rc::clone(objs[i].as_ref().unwrap()) };
+    // the mutual star has no chain: the hub holds every peer's original handle and every
+    // peer adopts the hub back, so each peer has exactly one adopter
+    if shape == "mstar" {
+        for j in 1..n {
+            let t = at(&objs, 0);
+            link(objs[j].as_ref().unwrap(), t, false);
+            edges += 1;
+        }
+        for j in 1..n {
+            let t = objs[j].take().unwrap();
+            link(objs[0].as_ref().unwrap(), t, noise(j));
+            edges += 1;
+        }
+        let keep = objs[0].take().unwrap();
+        drop(objs);
+        let build_us = t0.elapsed().as_micros();
+        verif::reset();
+        let t1 = std::time::Instant::now();
+        drop(keep);
+        let drop_us = t1.elapsed().as_micros();
+        let c = verif::counters();
+        return ScaleOut { n, edges, destroyed: DESTROYED.load(Relaxed), double: DOUBLE.load(Relaxed), trace_calls: c[0], pops: c[1], visits: c[2], scanned: c[3], build_us, drop_us };
+    }
     // 1. all edges that are made through clones
     match shape {
         "clique" => {
